@@ -275,6 +275,11 @@ class SymBool:
     def __ne__(self, o):
         return SymBool(self.e != _b(o))
 
+    def __xor__(self, o):
+        return SymBool(z3.Xor(self.e, _b(o)))
+
+    __rxor__ = __xor__
+
     def __int__(self):
         return SymInt(z3.If(self.e, z3.BitVecVal(1, EX.W), z3.BitVecVal(0, EX.W)))
 
@@ -531,7 +536,7 @@ class SymInt:
             if nbits >= EX.W:
                 fits = z3.BoolVal(True)
             elif nbits == 0:
-                fits = s.e == 0
+                fits = z3.Or(s.e == 0, s.e == -1)   # CPython quirk: (-1).to_bytes(0, signed=True) == b''
             else:
                 lo, hi = -(1 << (nbits - 1)), (1 << (nbits - 1)) - 1
                 fits = z3.And(s.e >= lo, s.e <= hi)
@@ -607,20 +612,37 @@ class IntZ:
     def __abs__(s):
         return IntZ(z3.If(s.e < 0, -s.e, s.e))
 
-    def __floordiv__(s, o):
+    def _pydivmod(s, o):
+        """Python floor divmod expressed with z3's Euclidean div/mod (a = b*(a div b) + (a mod b), 0 <= a mod b < |b|)."""
         d = s._z(o)
+        if isinstance(o, (IntZ, SymBool)):
+            if EX.branch(d == 0):
+                raise ZeroDivisionError('integer division or modulo by zero')
+        elif o == 0:
+            raise ZeroDivisionError('integer division or modulo by zero')
+        q, m = s.e / d, s.e % d
         if isinstance(o, builtins.int) and o > 0:
-            return IntZ(s.e / d)     # z3 Int '/' with positive divisor is floor
-        return IntZ(z3.If(d > 0, s.e / d, (-s.e) / (-d)))
+            return IntZ(q), IntZ(m)
+        adj = z3.And(d < 0, m != 0)
+        return IntZ(z3.If(adj, q - 1, q)), IntZ(z3.If(adj, m + d, m))
+
+    def __floordiv__(s, o):
+        return s._pydivmod(o)[0]
 
     def __mod__(s, o):
-        d = s._z(o)
-        if isinstance(o, builtins.int) and o > 0:
-            return IntZ(s.e % d)
-        return IntZ(z3.If(d > 0, s.e % d, -((-s.e) % (-d))))
+        return s._pydivmod(o)[1]
 
     def __divmod__(s, o):
-        return s // o, s % o
+        return s._pydivmod(o)
+
+    def __rdivmod__(s, o):
+        return IntZ(s._z(o))._pydivmod(s)
+
+    def __rfloordiv__(s, o):
+        return IntZ(s._z(o))._pydivmod(s)[0]
+
+    def __rmod__(s, o):
+        return IntZ(s._z(o))._pydivmod(s)[1]
 
     def __truediv__(s, o):
         if isinstance(o, builtins.int) and o > 0:
@@ -658,7 +680,39 @@ class IntZ:
     def __int__(s):
         return s
 
+    def bit_length(s):
+        return BitLen(s)
+
     __hash__ = None  # type: ignore
+
+
+class BitLen:
+    """bit_length() of a mathematical integer; only comparisons with constants are supported:
+    bit_length(x) > k  <=>  |x| >= 2^k."""
+
+    def __init__(self, x):
+        self.x = x
+
+    def _abs(self):
+        return z3.If(self.x.e < 0, -self.x.e, self.x.e)
+
+    def __gt__(self, k):
+        return SymBool(self._abs() >= z3.IntVal(1 << k))
+
+    def __ge__(self, k):
+        return SymBool(self._abs() >= z3.IntVal(1 << (k - 1))) if k > 0 else True
+
+    def __le__(self, k):
+        return SymBool(self._abs() < z3.IntVal(1 << k))
+
+    def __lt__(self, k):
+        return SymBool(self._abs() < z3.IntVal(1 << (k - 1))) if k > 0 else False
+
+    def __format__(self, spec):
+        return '<bit_length>'
+
+    def __str__(self):
+        return '<bit_length>'
 
 
 class Ratio:
@@ -928,11 +982,17 @@ class SymStr:
     __hash__ = None  # type: ignore
 
 
-class DecStr:
-    """Opaque decimal rendering of an integer (str(int) / int(str) are mutually inverse builtins)."""
+class DecStr(str):
+    """Opaque decimal rendering of an integer (str(int) / int(str) are mutually inverse builtins).
+    A real str subclass so that __repr__/__str__ implementations may return it."""
+
+    def __new__(cls, v):
+        obj = builtins.str.__new__(cls, '<dec>')
+        obj.v = v
+        return obj
 
     def __init__(self, v):
-        self.v = v
+        pass
 
     def __eq__(self, o):
         if isinstance(o, DecStr):
@@ -1080,7 +1140,7 @@ def _divmod(a, b):
     if isinstance(a, (SymInt, IntZ)):
         return a.__divmod__(b)
     if isinstance(b, (SymInt, IntZ)):
-        return b.__rdivmod__(a) if isinstance(b, SymInt) else divmod(a, b)
+        return b.__rdivmod__(a)
     return builtins.divmod(a, b)
 
 
@@ -1135,6 +1195,28 @@ def load_module(path: str, name: str, extra: Optional[dict] = None):
         mod.__dict__.update(extra)
     exec(compile(tree, path, 'exec'), mod.__dict__)
     return mod
+
+
+class silenced:
+    """Replace format_stdout in the pytezos.michelson.instructions modules by a no-op (formatting is not the subject
+    and cannot render proxies)."""
+
+    def __enter__(self):
+        import sys
+
+        import pytezos.michelson.instructions  # noqa
+
+        self.saved = []
+        for name, mod in list(sys.modules.items()):
+            if name.startswith('pytezos.michelson') and hasattr(mod, 'format_stdout'):
+                self.saved.append((mod, mod.format_stdout))
+                mod.format_stdout = lambda *a, **kw: ''
+        return self
+
+    def __exit__(self, *a):
+        for mod, f in self.saved:
+            mod.format_stdout = f
+        return False
 
 
 class shadowed:
